@@ -300,6 +300,7 @@ class Ctx:
         self.prop_checked = 0
         self.inconclusive = None
         self.smt_dump = None  # list to collect property queries as smt2 (thorough)
+        self.model_hooks = []  # callables(eval) -> extra entries of the extracted model
         if mode == "sym":
             self.solver = z3.Solver()
             self.solver.set("timeout", QUERY_TIMEOUT_MS)
@@ -509,6 +510,8 @@ class Ctx:
             else:
                 out[name] = bool(z3.is_true(v))
         self._last_z3_model = m
+        for hook in self.model_hooks:
+            out.update(hook(lambda t: m.eval(t, model_completion=True)))
         return out
 
     def eval_in_last_model(self, term):
